@@ -177,7 +177,7 @@ def _worker(args):
         known = load_known()
         agg = {"runs": 0, "ops": 0, "faults": {}, "probes": {}, "evals": 0, "distinct": set(),
                "violations": [], "known": {}, "foreign": {}, "hist": {}, "samples": [], "skipped": 0,
-               "digests": []}
+               "digests": [], "viol_keys": {}, "more_violations": 0}
         for idx in indices:
             if deadline and time.time() > deadline:
                 agg["skipped"] += 1
@@ -205,11 +205,13 @@ def _worker(args):
                     k = known_match(v, known)
                     if k is not None:
                         agg["known"][k["cause_key"]] = agg["known"].get(k["cause_key"], 0) + 1
-                    elif len(agg["violations"]) < 3:
-                        agg["violations"].append({"idx": idx, "case": case, "violation": v})
                     else:
-                        agg.setdefault("more_violations", 0)
-                        agg["more_violations"] = agg.get("more_violations", 0) + 1
+                        ck = v["cause_key"]
+                        agg["viol_keys"][ck] = agg["viol_keys"].get(ck, 0) + 1
+                        if agg["viol_keys"][ck] <= 1 and len(agg["violations"]) < 10:
+                            agg["violations"].append({"idx": idx, "case": case, "violation": v})
+                        else:
+                            agg["more_violations"] = agg.get("more_violations", 0) + 1
             elif len(agg["samples"]) < 1 and res["evals"].get(prop, 0) > 0:
                 agg["samples"].append({"run_index": idx, "case": case})
         agg["distinct"] = sorted(agg["distinct"])
@@ -230,7 +232,7 @@ def run_batch(prop, tier, seed, nruns, workers=None, budget_s=None, log=print):
     tasks = [(prop, tier, seed, c, deadline) for c in chunks]
     total = {"runs": 0, "ops": 0, "faults": {}, "probes": {}, "evals": 0, "distinct": set(),
              "violations": [], "known": {}, "foreign": {}, "hist": {}, "samples": [], "skipped": 0,
-             "more_violations": 0, "digests": []}
+             "more_violations": 0, "digests": [], "viol_keys": {}}
     if workers == 1:
         results = [_worker(t) for t in tasks]
     else:
@@ -253,7 +255,7 @@ def run_batch(prop, tier, seed, nruns, workers=None, budget_s=None, log=print):
         for k in ("runs", "ops", "evals", "skipped"):
             total[k] += r[k]
         total["more_violations"] += r.get("more_violations", 0)
-        for k in ("faults", "probes", "known", "foreign", "hist"):
+        for k in ("faults", "probes", "known", "foreign", "hist", "viol_keys"):
             for kk, vv in r[k].items():
                 total[k][kk] = total[k].get(kk, 0) + vv
         total["distinct"].update(r["distinct"])
